@@ -64,7 +64,11 @@ func {{ .RequestEncoder }}(encoder func(*http.Request) goahttp.Encoder) func(*ht
 			{{- end }}
 			req.AddCookie(&http.Cookie{
 				Name: {{ printf "%q" .HTTPName }},
+				{{- if (and (isAlias .FieldType) (eq .Type.Name "string")) }}
+				Value: string(v),
+				{{- else }}
 				Value: v,
+				{{- end }}
 				{{- if .MaxAge }}
 				MaxAge: {{ .MaxAge }},
 				{{- end }}
